@@ -23,6 +23,7 @@ type zzC05World struct {
 	privCT  []byte                   // a ciphertext under the private crypto key
 	scriptCT []byte                  // a ciphertext under the script crypto key
 	pass    []byte
+	taproot ManagedTaprootScriptAddress
 }
 
 func zzAllZero(b []byte) bool {
@@ -96,11 +97,21 @@ func zzNewC05World(state0 int) *zzC05World {
 				return err
 			}
 			w.scripts = append(w.scripts, ws)
+			// a secret taproot script (full output key only)
+			tpriv, _ := btcec.PrivKeyFromBytes([]byte{0x41, 0x22, 0x33, 0x44, 0x55, 0x66, 0x77, 0x88, 0x99, 0xaa, 0xbb, 0xcc, 0xdd, 0xee, 0xff, 0x01,
+				0x11, 0x22, 0x33, 0x44, 0x55, 0x66, 0x77, 0x88, 0x99, 0xaa, 0xbb, 0xcc, 0xdd, 0xee, 0xff, 0x07})
+			ts, err := sm.ImportTaprootScript(ns, &Tapscript{Type: TaprootFullKeyOnly, FullOutputKey: tpriv.PubKey()}, bs, 1, true)
+			if err != nil {
+				return err
+			}
+			w.scripts = append(w.scripts, ts)
+			w.taproot = ts
+			verifrt.Reach("taproot-script-imported")
 			return nil
 		}))
 		for _, sa := range w.scripts {
 			sc, err := sa.Script()
-			verifrt.Assert(err == nil && len(sc) == 4, "c05-setup-script-readable-unlocked")
+			verifrt.Assert(err == nil && len(sc) >= 4, "c05-setup-script-readable-unlocked")
 		}
 		verifrt.Reach("imports")
 	}
@@ -204,6 +215,11 @@ func (w *zzC05World) gated(label string) {
 		verifrt.Observe("accessor", "Script")
 		sc, err := s.Script()
 		verifrt.Assert(sc == nil && isLockErr(err), label+"-script-refused")
+	}
+	if w.taproot != nil {
+		verifrt.Observe("accessor", "TaprootScript")
+		ts, err := w.taproot.TaprootScript()
+		verifrt.Assert(ts == nil && isLockErr(err), label+"-taproot-script-refused")
 	}
 	verifrt.Observe("accessor", "Decrypt")
 	d, err := w.mgr.Decrypt(CKTPrivate, w.privCT)
